@@ -452,6 +452,16 @@ func c04Admin(r *ck.Run, cfg gw.Opts, ci int, sps []c04Spelling) {
 	w := newC04World(cfg)
 	defer func() { w.Close() }()
 	base := w.snap()
+	// values that are paths without any dot segment: an object inside a bucket, absolute paths of a file beside the
+	// gateway's directory, of another bucket and of an object in it
+	sps = append(append([]c04Spelling{}, sps...),
+		c04Spelling{Name: "object-path-in-other-bucket", Plain: w.Other + "/secret", Class: "nested-path"},
+		c04Spelling{Name: "object-path-in-own-bucket", Plain: w.Bucket + "/" + w.Key, Class: "nested-path"},
+		c04Spelling{Name: "absolute-path-of-outside-file", Plain: filepath.Join(w.F.Dir, "outside.txt"), Class: "absolute"},
+		c04Spelling{Name: "absolute-path-of-other-bucket", Plain: filepath.Join(w.F.G.Root, w.Other), Class: "absolute"},
+		c04Spelling{Name: "absolute-path-of-object", Plain: filepath.Join(w.F.G.Root, w.Other, "secret"), Class: "absolute"},
+		c04Spelling{Name: "trailing-slash", Plain: w.Other + "/", Class: "nested-path"},
+	)
 	for _, sp := range sps {
 		for _, p := range []struct{ path, q string }{
 			{"/change-bucket-owner", gw.Q("bucket", sp.Plain, "owner", "usr3")},
